@@ -2,6 +2,10 @@ import PycsepVerif.Drive.Soft
 import PycsepVerif.Drive.C09
 import PycsepVerif.Drive.C04
 import PycsepVerif.Drive.C11
+import PycsepVerif.Drive.C06
+import PycsepVerif.Drive.C13
+import PycsepVerif.Drive.C07
+import PycsepVerif.Drive.C08
 -- REGISTER-IMPORT (one `import PycsepVerif.Drive.Cxx` line per property, above this line)
 
 /-- the per-property handlers, tried in order; each returns `none` for ops it does not know -/
@@ -10,6 +14,10 @@ def handlers : List (List String → Option String) := [
   Drive.C09.handle
   , Drive.C04.handle
   , Drive.C11.handle
+  , Drive.C06.handle
+  , Drive.C13.handle
+  , Drive.C07.handle
+  , Drive.C08.handle
   -- REGISTER-HANDLER (`, Drive.Cxx.handle` lines above this line)
 ]
 
